@@ -1,6 +1,6 @@
 """Out-of-tree recorder (pytest plugin): while foreign code - the repository's own end-to-end tests - runs, every outermost
 `sample` call on a model object is logged with the fingerprints of the global NumPy generator and of the model's own generator
-before and after the call (also on the exception path).  Active only when COPULAS_VERIF=1 and COPULAS_VERIF_TRACE=<file>;
+before and after the call (also on the exception path).  Active only when COPULAS_VERIF=1 and COPULAS_VERIF_TRACE=<file> (sampling events) and / or COPULAS_VERIF_LIFE=<file> (lifecycle events: every outermost fit / query / sample / to_dict with the fitted state before and after and the exception class);
 nothing in /repo is modified: the wrappers are installed on the classes at pytest start-up and removed at the end.
 
     cd /repo && COPULAS_VERIF=1 COPULAS_VERIF_TRACE=/path/trace.json PYTHONPATH=/verif pytest -p harness.recorder tests/end-to-end
@@ -53,14 +53,111 @@ def _wrap(cls):
     cls.sample = wrapper
 
 
+# ---- lifecycle events (C19 on foreign executions) ----------------------------------------------------------------------
+_LIFE = []
+_LDEPTH = [0]
+_LORIG = []
+_OIDS = {}
+QUERIES = ('probability_density', 'log_probability_density', 'cumulative_distribution', 'percent_point', 'partial_derivative',
+           'get_likelihood', 'pdf', 'cdf', 'ppf', 'log_pdf')
+
+
+_NEXT = [0]
+
+
+def _oid(m):
+    """a number per object; addresses are reused after garbage collection, so the entry goes when the object goes"""
+    import weakref
+    k = id(m)
+    if k not in _OIDS:
+        _NEXT[0] += 1
+        _OIDS[k] = _NEXT[0]
+        try:
+            weakref.finalize(m, _OIDS.pop, k, None)
+        except TypeError:
+            pass
+    return _OIDS[k]
+
+
+def _life(m):
+    """'fitted' / 'unfitted' as the public attributes tell it (bivariates have no flag: a parameter stands for it)"""
+    import copulas.bivariate.base as bb
+    if isinstance(m, bb.Bivariate):
+        if type(m).__name__ == 'Independence':
+            return 'parameterless'
+        return 'fitted' if getattr(m, 'theta', None) is not None else 'unfitted'
+    return 'fitted' if getattr(m, 'fitted', False) else 'unfitted'
+
+
+def _group(m):
+    import copulas.bivariate.base as bb
+    import copulas.multivariate.base as mb
+    return 'bi' if isinstance(m, bb.Bivariate) else 'multi' if isinstance(m, mb.Multivariate) else 'uni'
+
+
+def _wrap_life(cls, name):
+    orig = cls.__dict__.get(name)
+    if orig is None or not callable(orig) or isinstance(orig, (classmethod, staticmethod)):
+        return
+
+    @functools.wraps(orig)
+    def wrapper(self, *a, **k):
+        if _LDEPTH[0] > 0:
+            return orig(self, *a, **k)
+        _LDEPTH[0] += 1
+        l0 = _life(self)
+        err = ''
+        try:
+            return orig(self, *a, **k)
+        except BaseException as ex:
+            err = type(ex).__name__
+            raise
+        finally:
+            _LDEPTH[0] -= 1
+            _LIFE.append({'cls': type(self).__name__, 'grp': _group(self), 'o': _oid(self),
+                          'm': 'query' if name in QUERIES else name, 'name': name, 'l0': l0, 'l1': _life(self), 'err': err,
+                          'test': os.environ.get('PYTEST_CURRENT_TEST', '').split(' ')[0]})
+    _LORIG.append((cls, name, orig))
+    setattr(cls, name, wrapper)
+
+
+def _install_life():
+    import copulas.bivariate as cb
+    import copulas.multivariate as cm
+    import copulas.univariate as cu
+    from copulas.bivariate.base import Bivariate
+    from copulas.univariate.base import ScipyModel
+    seen = set()
+    for base in (cu.Univariate, ScipyModel, Bivariate, cm.GaussianMultivariate, cm.VineCopula):
+        stack = [base]
+        while stack:
+            c = stack.pop()
+            if c in seen:
+                continue
+            seen.add(c)
+            stack.extend(c.__subclasses__())
+            for name in ('fit', 'sample', 'to_dict') + QUERIES:
+                _wrap_life(c, name)
+
+
 def pytest_configure(config):
-    if os.environ.get('COPULAS_VERIF') != '1' or not os.environ.get('COPULAS_VERIF_TRACE'):
+    if os.environ.get('COPULAS_VERIF') != '1':
+        return
+    if os.environ.get('COPULAS_VERIF_LIFE'):
+        _install_life()
+    if not os.environ.get('COPULAS_VERIF_TRACE'):
         return
     for c in _classes():
         _wrap(c)
 
 
 def pytest_unconfigure(config):
+    lpath = os.environ.get('COPULAS_VERIF_LIFE')
+    if os.environ.get('COPULAS_VERIF') == '1' and lpath:
+        for cls, name, orig in _LORIG:
+            setattr(cls, name, orig)
+        with open(lpath, 'w') as f:
+            json.dump(_LIFE, f)
     path = os.environ.get('COPULAS_VERIF_TRACE')
     if os.environ.get('COPULAS_VERIF') != '1' or not path:
         return
